@@ -13,7 +13,12 @@ are typed by the driver too), not that the driver REMEMBERS that level correctly
 a user line sent through send_command / send_configs moved the device (IOS "end" inside a config list,
 Junos "commit and-quit", send_command("configure terminal")) are inside C04's quantifier:
 acquire_priv(target) must leave the device in the target whatever _current_priv_level says
-(suite `history`).  Outside: levels sharing a prompt when the remembered level is not the right one."""
+(suite `history`).  Outside: levels sharing a prompt when the remembered level is not the right one.
+
+Round 6: "the call ends ... after a bounded number of attempts" and "acquire_priv(target) leaves the device in
+the target" are said of EVERY call, so a call that legitimately failed (device refused, secret rejected) gives
+the next call on the same connection no excuse: suite `calls` runs histories of several acquire_priv calls on
+one driver object / one device and judges every call on its own (model: PrivGraph.acquire_calls)."""
 import json
 import os
 import time
@@ -59,14 +64,16 @@ def vary_host(platform, host, kind, n):
     return "%s-%02d.%02d.%02d" % (host, h, m, sec)
 
 
-def make_device(variant, vary=None, **kw):
+def make_device(variant, vary=None, tries=3, **kw):
     sd = _simdevice()
 
     class C04Device(sd.SimDevice):
         """SimDevice + (a) an optional custom vendor table, (b) `mute`: transitions after which the
         device says nothing more, (c) a cap on executed lines (non-termination guard: a step budget, no
         clock), (d) `vary`: the text of the prompt differs every time it is printed (counter / time of
-        day in the host part) while the mode it stands for stays the same, (e) USER_MOVES."""
+        day in the host part) while the mode it stands for stays the same, (e) USER_MOVES, (f) `tries`:
+        how many passwords the enable dialogue takes before the device prints its prompt again (IOS: 3,
+        "% Bad secrets"; (c)EOS drops back to the prompt after the first bad one: 1)."""
 
         def __init__(self, platform, table=None, **k):
             super().__init__("generic" if table is not None else platform, **k)
@@ -79,6 +86,7 @@ def make_device(variant, vary=None, **kw):
             self.vary = vary
             self.nprompt = 0
             self.moves = USER_MOVES.get(platform, {})
+            self.tries = tries
 
         def prompt(self):
             if not self.vary:
@@ -109,7 +117,10 @@ def make_device(variant, vary=None, **kw):
                 self.submode = ""
                 self._emit(self.nl + self.prompt())
                 return
+            fresh = self.dialog is None
             super()._return()
+            if fresh and self.dialog is not None:     # SimDevice gives up when its attempt counter reaches 3
+                self.dialog = (self.dialog[0], 4 - self.tries)
 
     return C04Device(variant["platform"], table=variant.get("vendor"), **kw)
 
@@ -375,6 +386,136 @@ def history_oracle(variant, dst, obs, factor):
 
 
 # ------------------------------------------------------------------------------------------------
+# histories of several acquire_priv calls on ONE connection
+# ------------------------------------------------------------------------------------------------
+CALL_FAULTS = ("none", "refuse", "ignore", "wrongpw", "absentpw")
+
+
+def arm(variant, dev, d, fault, edges):
+    """the device's behaviour and the driver's auth_secondary for the next call (replaces the previous arming)"""
+    k = fault["kind"]
+    dev.refuse.clear()
+    dev.ignore.clear()
+    dev.secret = None if k in ("nopw", "nopw_blank") else SECRET
+    d.auth_secondary = {"wrongpw": "wr0ng", "absentpw": "", "nopw_blank": ""}.get(k, SECRET)
+    sets = {"refuse": dev.refuse, "ignore": dev.ignore}
+    for (a, b) in fault.get("edges", []):
+        for line in edges.get((mode_of(variant, a), mode_of(variant, b)), []):
+            sets[k].add((mode_of(variant, a), line))
+
+
+def run_calls(variant, stack, hist, policy=("whole",)):
+    """one device, one driver object: navigate to hist["start"] (compliant device, right password), then
+    for every call of hist["calls"]: arm the device's behaviour DURING that call (fault: none | refuse /
+    ignore of transitions | wrong / absent auth_secondary) and acquire_priv(call["dst"]).  The device
+    (mode, a password dialogue left pending by a failed escalation, its log) and the driver live on from
+    call to call; hist["tries"] = passwords the device's dialogue takes.  Per call: where the device was
+    when the call began, what the driver remembered, exception class, device mode, remembered level, the
+    lines the device executed during the call."""
+    sd = _simdevice()
+    warnings.simplefilter("ignore")
+    dev = make_device(variant, vary=hist.get("vary"), tries=hist.get("tries", 3), secret=SECRET)
+    dev.start()
+    d = build_driver(variant, stack, dev, policy)
+    r = sd.Runner(stack)
+    obs = {"setup_exc": None, "calls": []}
+    try:
+        names, order, cls = observe_tables(variant, d, dev)
+        obs.update(names=names, order=order, cls=cls)
+        try:
+            r.call(d.acquire_priv, hist["start"])
+        except BaseException as e:  # noqa
+            obs["setup_exc"] = type(e).__name__
+            return obs
+        if dev.mode != mode_of(variant, hist["start"]) or d._current_priv_level.name != hist["start"]:
+            obs["setup_exc"] = "setup ended in %s believing %s" % (dev.mode, d._current_priv_level.name)
+            return obs
+        edges = vendor_edges(dev, variant)
+        for c in hist["calls"]:
+            fault = dict(c["fault"])
+            fault["edges"] = [tuple(e) for e in fault.get("edges", [])]
+            arm(variant, dev, d, fault, edges)
+            n0, h0 = len(dev.log), len(dev.hidden_lines)
+            o = {"pre_mode": dev.mode, "pre_dialog": dev.dialog is not None, "belief0": d._current_priv_level.name}
+            exc = None
+            try:
+                r.call(d.acquire_priv, c["dst"])
+            except Runaway:
+                exc = "Runaway"
+            except BaseException as e:  # noqa
+                exc = type(e).__name__
+            o.update(exc=exc, mode=dev.mode, belief=d._current_priv_level.name,
+                     log=[(m, bytes(l)) for (m, l, _) in dev.log[n0:]], hidden=[bytes(x) for x in dev.hidden_lines[h0:]],
+                     auth_secondary=d.auth_secondary, asked=dev.secret is not None)
+            obs["calls"].append(o)
+            if exc == "Runaway":
+                break
+        return obs
+    finally:
+        r.close()
+
+
+def call_oracle(variant, hist, obs, i, factor):
+    """the property on the i-th call of a history, judged ON ITS OWN: what earlier calls ended in gives the
+    call no excuse.  From the device's own state when the call began (mode; password dialogue pending?) and
+    the device's behaviour during the call: bounded by the call's own budget; a scrapli error only; with
+    the device at a level prompt, cooperating on the whole vendor path and the right secret it must arrive
+    by exactly the path's single-step commands; with a transition of the path refused it must raise.
+    Lenient only where the device was still inside a password dialogue when the call began (a bounded
+    scrapli error or a correct arrival) and in the shared-prompt region of history_oracle.
+    Returns (why | None, signature, judged: 'strict' | 'dialogue' | 'shared')"""
+    c, call = obs["calls"][i], hist["calls"][i]
+    names = obs["names"]
+    n = len(names)
+    dst = call["dst"]
+    fault = dict(call["fault"])
+    fault["edges"] = [tuple(e) for e in fault.get("edges", [])]
+    if c["exc"] == "Runaway" or len(c["log"]) > 2 * (max(factor, 1) * n + 1):
+        return "navigation is not bounded: %d lines typed in one call (exc %s)" % (len(c["log"]), c["exc"]), None, "strict"
+    if c["exc"] is not None and c["exc"] not in ALLOWED_FAIL:
+        return "acquire_priv ended with %s, not a scrapli privilege/authentication/timeout error" % c["exc"], None, "strict"
+    inv = {mode_of(variant, x): x for x in names}
+    if c["pre_dialog"]:
+        if c["exc"] is None and c["mode"] != mode_of(variant, dst) and obs["cls"][names.index(dst)] == [names.index(dst)]:
+            return "acquire_priv returned normally with the device in %s, target %s" % (c["mode"], dst), None, "dialogue"
+        return None, None, "dialogue"
+    if c["pre_mode"] not in inv:
+        return "harness: the device was in %s, no privilege level, when the call began" % c["pre_mode"], None, "strict"
+    a = inv[c["pre_mode"]]
+    if obs["cls"][names.index(a)] != [names.index(a)] and c["belief0"] != a:
+        return None, None, "shared"
+    o = dict(c, names=names, cls=obs["cls"])
+    why, sig = oracle(variant, a, dst, fault, o, factor)
+    return why, sig, "strict"
+
+
+def calls_term(variant, hist, obs):
+    """the byte strings of a history (lines executed, auth_secondary values, hidden lines) repeat a lot (a call
+    that gives up at its bound types one command 2n+1 times): the term carries each once, in a table"""
+    names = obs["names"]
+    ix = names.index
+    inv = {mode_of(variant, n): i for i, n in enumerate(names)}
+    bel = lambda b: "None" if b == "DUMMY" else "(Some %d%%nat)" % ix(b)
+    table = [SECRET.encode()]
+
+    def ref(b):
+        if b not in table:
+            table.append(b)
+        return table.index(b)
+    cs, os_ = [], []
+    for call, c in zip(hist["calls"], obs["calls"]):
+        k = call["fault"]["kind"]
+        stuck = coq_list(["(%d,%d)" % (ix(a), ix(b)) for (a, b) in call["fault"].get("edges", [])]) if k in ("refuse", "ignore") else "[]"
+        cs.append("(%s, %s, %d, %d)" % (stuck, "true" if c["asked"] else "false", ref(c["auth_secondary"].encode()), ix(call["dst"])))
+        log = coq_list(["(%d,%d)" % (inv[m], ref(l)) for (m, l) in c["log"]])
+        hid = coq_list(["%d" % ref(h) for h in c["hidden"]])
+        os_.append("(%d, %s, %d, %s, %s)" % (EXC_CODE.get(c["exc"], 9), bel(c["belief"]), inv[c["mode"]], log, hid))
+    return "((%s, %s, %s, %d, %d, %s, %s, %s)%%nat : calls_t)" % (
+        table_term(variant), nll(obs["order"]), nll(obs["cls"]), hist.get("tries", 3), ix(hist["start"]),
+        coq_list(["%s%%N" % coq_bytes(b) for b in table]), coq_list(cs), coq_list(os_))
+
+
+# ------------------------------------------------------------------------------------------------
 # the property, decided on the device's own log (independent of the model and of scrapli's tables)
 # ------------------------------------------------------------------------------------------------
 def oracle(variant, src, dst, fault, obs, factor):
@@ -539,6 +680,32 @@ Definition chk (c : case_t) : bool :=
   let '(tab, order, cls, (stuck, mute, secret, sec), (bel0, src, dst), (oc, bel, fm, lg, hid)) := c in
   let '(o, b, s, tr) := run_acquire gen_factor gen_stop (mkC tab stuck mute secret sec) order cls bel0 src dst in
   order_ok tab order && code_ok o oc && oeqb b bel && (s_mode s =? fm) && log_eqb (s_log s) lg && lbeq (s_hidden s) hid.
+(* a history of calls on one connection: per call (refused transitions, device secret, auth_secondary, target)
+   and the observation (exception code, remembered level, device mode, lines executed / typed into password
+   dialogues DURING that call); the model's device log after call i must be the concatenation up to i *)
+Definition calls_t : Type :=
+  (table * list (list nat) * list (list nat) * nat * nat * list bytes
+   * list (list (nat * nat) * bool * nat * nat)
+   * list (nat * option nat * nat * list (nat * nat) * list nat))%type.
+Fixpoint chk_calls (tb : list bytes) (rs : list (outcome * option nat * sim * list line))
+  (obs : list (nat * option nat * nat * list (nat * nat) * list nat)) (lg : list (nat * bytes)) (hid : list bytes) : bool :=
+  match rs, obs with
+  | [], [] => true
+  | (o, b, s, _) :: rs', (oc, bel, fm, l, h) :: obs' =>
+      let lg' := lg ++ map (fun e : nat * nat => (fst e, nth (snd e) tb [])) l in
+      let hid' := hid ++ map (fun i => nth i tb []) h in
+      code_ok o oc && oeqb b bel && (s_mode s =? fm) && log_eqb (s_log s) lg' && lbeq (s_hidden s) hid'
+      && chk_calls tb rs' obs' lg' hid'
+  | _, _ => false
+  end.
+(* byte strings are given once, in the table [tb] (entry 0: the device's secret), and referred to by index *)
+Definition chk_seq (c : calls_t) : bool :=
+  let '(tab, order, cls, tries, src, tb, cs, obs) := c in
+  let cfgs := map (fun c : list (nat * nat) * bool * nat * nat =>
+                     let '(stuck, asked, sec, dst) := c in
+                     ((stuck, (if asked then Some (nth 0 tb []) else None), nth sec tb [], dst) : call_cfg)) cs in
+  order_ok tab order && chk_calls tb (run_calls gen_factor gen_stop tries tab order cls cfgs (Some src) src) obs [] [].
+Definition chk_any (c : case_t + calls_t) : bool := match c with inl x => chk x | inr y => chk_seq y end.
 """
 
 
@@ -673,11 +840,162 @@ def explore_histories(rep, variant, stacks, rng, thorough, factor, acc, budget=N
                         a, obs["belief0"], why), sig))
 
 
+def ordered_route(variant, src, dst):
+    """[(level, level')] hops of the vendor path src..dst, in order"""
+    dev = make_device(variant)
+    ve = vendor_edges(dev, variant)
+    inv = {mode_of(variant, n): n for n in variant["names"]}
+    p = vendor_path(ve, mode_of(variant, src), mode_of(variant, dst)) or []
+    return [(inv[a], inv[b]) for a, b in zip(p, p[1:])]
+
+
+def auth_level_edges(variant):
+    """adjacent level pairs (a, b) whose vendor transition opens a password dialogue"""
+    dev = make_device(variant)
+    inv = {mode_of(variant, n): n for n in variant["names"]}
+    out = set()
+    for m, tr in dev.t["trans"].items():
+        for line, (kind, tgt) in tr.items():
+            if kind == "auth" and m in inv and tgt in inv:
+                out.add((inv[m], inv[tgt]))
+    return sorted(out)
+
+
+def call_histories(variant, rng, counts):
+    """histories of acquire_priv calls on one connection in which earlier calls legitimately FAIL and later
+    ones must be judged on their own.  counts = (refused-then-cooperating, wrong-then-corrected secret,
+    long fault-free walks, random mixes)"""
+    names = variant["names"]
+    if len(names) < 2:
+        return []
+    n = len(names)
+    none = {"kind": "none"}
+    other = lambda x: rng.choice([y for y in names if y != x])
+    out = []
+    pairs = [(a, b) for a in names for b in names if a != b]
+    # (1) the device refuses / ignores a transition of the route for one or two whole calls (each gives up at
+    #     its bound), then cooperates: the very same call again, then other targets
+    for _ in range(counts[0]):
+        src, dst = rng.choice(pairs)
+        e = rng.choice(ordered_route(variant, src, dst))
+        bad = {"kind": rng.choice(["refuse", "ignore"]), "edges": [list(e)]}
+        calls = [{"dst": dst, "fault": bad} for _ in range(rng.choice([1, 1, 2]))]
+        calls.append({"dst": dst, "fault": none})
+        z = other(dst)
+        calls.append({"dst": z, "fault": none})
+        if rng.random() < 0.5:
+            calls.append({"dst": other(z), "fault": none})
+        out.append({"kind": "refused-then-cooperating", "start": src, "tries": 3, "calls": calls})
+    # (2) wrong / absent auth_secondary, then corrected on the same connection object; devices whose dialogue
+    #     takes 1 (prompt again at once: the call loops to its bound), 2 or 3 passwords (the failed call leaves
+    #     the dialogue pending: the next calls begin inside it)
+    ae = auth_level_edges(variant)
+    cross = [(a, b, e) for (a, b) in pairs for e in ae if e in ordered_route(variant, a, b)]
+    for _ in range(counts[1] if cross else 0):
+        src, dst, e = rng.choice(cross)
+        tries = rng.choice([1, 1, 3, 3, 2])
+        calls = [{"dst": dst, "fault": {"kind": rng.choice(["wrongpw", "absentpw"])}} for _ in range(rng.choice([1, 1, 2]))]
+        calls += [{"dst": dst, "fault": none} for _ in range(tries)]
+        calls.append({"dst": other(dst), "fault": none})
+        calls.append({"dst": dst, "fault": none})
+        out.append({"kind": "wrong-then-corrected-secret", "start": src, "tries": tries, "calls": calls})
+    # (3) more fault-free calls than the bound of one call has attempts: nothing may add up from call to call
+    for _ in range(counts[2]):
+        cur = rng.choice(names)
+        calls, steps = [], 0
+        start = cur
+        while steps <= 2 * n + 2 or len(calls) < 3:
+            nxt = other(cur)
+            steps += len(ordered_route(variant, cur, nxt))
+            calls.append({"dst": nxt, "fault": none})
+            cur = nxt
+        out.append({"kind": "long-walk", "start": start, "tries": 3, "calls": calls})
+    # (4) random mixes of failing and cooperating calls
+    edges = level_edges(variant)
+    for _ in range(counts[3]):
+        start = rng.choice(names)
+        pos = start
+        tries = rng.choice([1, 3])
+        calls = []
+        for _ in range(rng.randrange(3, 8)):
+            dst = rng.choice(names)
+            route = ordered_route(variant, pos, dst)
+            x = rng.random()
+            if x < 0.5 or not edges:
+                fault = none
+            elif x < 0.85:
+                e = rng.choice(route) if route and rng.random() < 0.7 else rng.choice(edges)
+                fault = {"kind": rng.choice(["refuse", "ignore"]), "edges": [list(e)]}
+            else:
+                fault = {"kind": rng.choice(["wrongpw", "absentpw"])}
+            calls.append({"dst": dst, "fault": fault})
+            blocked = [h for h in route if list(h) in fault.get("edges", []) or (fault["kind"] in ("wrongpw", "absentpw") and h in ae)]
+            pos = blocked[0][0] if blocked else dst    # where a faithful driver leaves the device (only steers the generator)
+        calls.append({"dst": rng.choice(names), "fault": none})
+        out.append({"kind": "mixed", "start": start, "tries": tries, "calls": calls})
+    return out
+
+
+def explore_calls(rep, variant, stacks, rng, factor, acc, counts, hists=None, policy_mix=True):
+    """histories of several acquire_priv calls on one connection: every call judged on its own"""
+    hists = call_histories(variant, rng, counts) if hists is None else hists
+    for hist in hists:
+        for stack in (stacks if hist["kind"] != "long-walk" and hist["kind"] != "mixed" else (rng.choice(stacks),)):
+            hist = dict(hist)
+            if policy_mix and rng.random() < 0.15:
+                hist["vary"] = rng.choice(VARY[1:])
+            policy = ("whole",)
+            # split reads only where no secret is rejected: SimDevice ends every vendor's dialogue with the IOS text
+            # "% Bad secrets", and a read ending right after its "%" is a Junos shell prompt to get_prompt (prompt
+            # detection under read chunking is C02's / C05's subject, the text an artefact of the simulated device)
+            rejected = any(c["fault"]["kind"] in ("wrongpw", "absentpw") for c in hist["calls"])
+            if policy_mix and not rejected and rng.random() < 0.15:
+                policy = rng.choice([("bytes", 1), ("bytes", 3), ("random", rng.randrange(1 << 30), 9)])
+            obs = run_calls(variant, stack, hist, policy)
+            sc = {"variant": variant["label"], "stack": stack, "calls_history": hist, "src": hist["start"], "dst": None,
+                  "fault": {"kind": "none"}, "policy": list(policy)}
+            if variant.get("levels") is not None:
+                sc["user_table"] = {"levels": variant["levels"], "kind": variant["kind"], "parent": variant["parent"]}
+            d = acc["dist"]
+            if obs.get("setup_exc"):
+                acc["fail"].append((sc, obs, "could not navigate to the first level of a history on a compliant device: %s" % obs["setup_exc"], None))
+                d["calls:setup_failed"] = d.get("calls:setup_failed", 0) + 1
+                continue
+            failed_before, judged_after_failure = False, 0
+            for i, c in enumerate(obs["calls"]):
+                why, sig, how = call_oracle(variant, hist, obs, i, factor)
+                if failed_before and how == "strict" and c["exc"] is None:
+                    judged_after_failure += 1
+                for kk in ("calls:call-" + how, "calls:outcome:" + str(c["exc"]),
+                           "calls:%s-an-earlier-call-failed" % ("after" if failed_before else "before")):
+                    d[kk] = d.get(kk, 0) + 1
+                if c["pre_dialog"]:
+                    d["calls:begun-inside-a-password-dialogue"] = d.get("calls:begun-inside-a-password-dialogue", 0) + 1
+                if why:
+                    sci = dict(sc, call=i, src=c["pre_mode"], dst=hist["calls"][i]["dst"], fault=hist["calls"][i]["fault"])
+                    acc["fail"].append((sci, obs, "call %d of a history of %d acquire_priv calls on one connection (%s; %d earlier call(s) "
+                                        "ended in an error, the device was in %s%s when this call began): %s" % (
+                                            i + 1, len(hist["calls"]), hist["kind"], sum(1 for x in obs["calls"][:i] if x["exc"]), c["pre_mode"],
+                                            ", inside a password dialogue," if c["pre_dialog"] else "", why), sig))
+                    if not sig:     # a listed finding's signature: the later calls are still judged
+                        break
+                failed_before = failed_before or c["exc"] is not None
+            rep.case(("calls", variant["label"], stack, json.dumps(hist, sort_keys=True)), nontrivial=judged_after_failure > 0)
+            for kk in ("calls:history:" + hist["kind"], "calls:tries:%d" % hist.get("tries", 3), "calls:length:%d" % len(hist["calls"]),
+                       "calls:successes-judged-after-a-failure:%s" % ("0" if not judged_after_failure else "1+"), "stack:" + stack):
+                d[kk] = d.get(kk, 0) + 1
+            if len(obs["calls"]) == len(hist["calls"]):
+                acc["seq_terms"].append(calls_term(variant, hist, obs))
+                acc["seq_cases"].append((sc, obs, variant))
+
+
 def obs_json(obs):
     o = dict(obs)
     if "log" in o:
         o["log"] = [[m, l.decode("latin-1")] for (m, l) in o["log"]]
         o["hidden"] = [h.decode("latin-1") for h in o["hidden"]]
+    if "calls" in o:
+        o["calls"] = [obs_json(c) for c in o["calls"]]
     return o
 
 
@@ -756,7 +1074,7 @@ def run(rep):
     factor = info.get("factor", 2)
     t1 = time.time()
     # 3. correspondence + oracle
-    acc = {"terms": [], "cases": [], "fail": [], "dist": {}, "rt_mismatch": []}
+    acc = {"terms": [], "cases": [], "fail": [], "dist": {}, "rt_mismatch": [], "seq_terms": [], "seq_cases": []}
     variants = core_variants(vs) if vs else []
     if not variants:   # the translator failed: still explore the implementation (oracle only), tables from the drivers
         try:
@@ -792,6 +1110,7 @@ def run(rep):
                         if why:
                             acc["fail"].append((sc, obs, why, sig))
         explore_histories(rep, v, ("sync", "async"), rng, thorough, factor, acc)
+        explore_calls(rep, v, ("sync", "async"), rng, factor, acc, (12, 8, 3, 12) if thorough else (3, 2, 1, 3))
     # user-supplied tables: random trees (with and without shared leaf prompts), then the malformed stream
     n_trees = 60 if thorough else 14
     for i in range(n_trees):
@@ -803,6 +1122,7 @@ def run(rep):
         explore(rep, v, ("sync", "async") if i % 2 == 0 else (rng.choice(["sync", "async"]),), pairs, rng, False, factor, acc)
         if len(v["names"]) > 1:
             explore_histories(rep, v, (rng.choice(["sync", "async"]),), rng, False, factor, acc, budget=12 if thorough else 3)
+            explore_calls(rep, v, (rng.choice(["sync", "async"]),), rng, factor, acc, (3, 2, 1, 3) if thorough else (1, 1, 0, 1))
     for i in range(40 if thorough else 10):
         v = random_tree(rng, ["forest", "cycle", "ambiguous"][i % 3])
         pairs = [(a, b) for a in v["names"] for b in v["names"] if a != b]
@@ -829,9 +1149,23 @@ def run(rep):
         except Exception as e:  # noqa
             rep.notes.append("finding %s could not be replayed: %r" % (f.get("id"), e))
     t2 = time.time()
-    bad, log = common.eval_cases(rep.workdir, "cases_c04", HEADER, acc["terms"], "chk") if not [b for b in rep.broken if b.startswith("gen") or b.startswith("Gen")] else (None, "generation failed")
+    # the (larger) history terms are spread evenly over the single-call ones, so that every shard gets its share
+    all_terms, all_cases = [], []
+    every = max(1, len(acc["terms"]) // max(1, len(acc["seq_terms"])))
+    k = 0
+    for i, t in enumerate(acc["terms"]):
+        all_terms.append("(inl %s)" % t)
+        all_cases.append(acc["cases"][i])
+        if i % every == every - 1 and k < len(acc["seq_terms"]):
+            all_terms.append("(inr %s)" % acc["seq_terms"][k])
+            all_cases.append(acc["seq_cases"][k])
+            k += 1
+    all_terms += ["(inr %s)" % t for t in acc["seq_terms"][k:]]
+    all_cases += acc["seq_cases"][k:]
+    bad, log = common.eval_cases(rep.workdir, "cases_c04", HEADER, all_terms, "chk_any") if not [b for b in rep.broken if b.startswith("gen") or b.startswith("Gen")] else (None, "generation failed")
     t3 = time.time()
-    rep.coverage["correspondence"] = {"suite": "net-nav", "cases": len(acc["terms"]), "distribution": dict(sorted(acc["dist"].items())),
+    rep.coverage["correspondence"] = {"suite": "net-nav", "cases": len(all_terms), "call_histories": len(acc["seq_terms"]),
+                                      "distribution": dict(sorted(acc["dist"].items())),
                                       "model_disagreements": None if bad is None else len(bad),
                                       "oracle_failures": len(acc["fail"])}
     rep.coverage["generated_from"] = common.source_hashes(gen_privgraph.SOURCES)
@@ -841,7 +1175,10 @@ def run(rep):
                 "navigated to by the driver, target) x fault (none, no password asked, wrong / absent auth_secondary, each refused / "
                 "ignored / silent transition of the route, off-route and double refusals; the same on devices whose prompt text varies at every "
                 "print) x sync/asyncio x read chunking; histories (level reached, user line that moves the device via send_command(s) / "
-                "send_configs with fillers, acquire_priv of the remembered / another level); "
+                "send_configs with fillers, acquire_priv of the remembered / another level); histories of 3..12 acquire_priv calls on one "
+                "connection (device refusing / ignoring a route transition for whole calls then cooperating, wrong / absent then corrected "
+                "auth_secondary with a 1/2/3-attempt password dialogue, fault-free walks longer than one call's bound, random mixes), every "
+                "call judged on its own; "
                 "non-trivial = source != target; distinct = (variant, stack, pair, fault)")
     for (sc, obs, v) in acc["cases"][:1] + acc["cases"][len(acc["cases"]) // 2:len(acc["cases"]) // 2 + 2]:
         rep.sample({"scenario": {k: sc[k] for k in ("variant", "stack", "src", "dst", "fault")}, "exc": obs["exc"], "final_mode": obs["mode"],
@@ -861,9 +1198,13 @@ def run(rep):
         rep.notes.append(log)
     elif bad:
         for ix in bad[:5]:
-            sc, obs, v = acc["cases"][ix]
-            rep.broken.append("correspondence net-nav: model differs from implementation on %s %s %s->%s %s" % (
-                sc["variant"], sc["stack"], sc["src"], sc["dst"], json.dumps(sc["fault"])))
+            sc, obs, v = all_cases[ix]
+            if "calls_history" in sc:
+                rep.broken.append("correspondence net-nav: model differs from implementation on the history of calls %s %s %s" % (
+                    sc["variant"], sc["stack"], json.dumps(sc["calls_history"], sort_keys=True)))
+            else:
+                rep.broken.append("correspondence net-nav: model differs from implementation on %s %s %s->%s %s" % (
+                    sc["variant"], sc["stack"], sc["src"], sc["dst"], json.dumps(sc["fault"])))
             rep.notes.append("disagreement: %r / observed %r" % (sc, obs_json(obs)))
     for m in acc["rt_mismatch"]:
         rep.broken.append("correspondence net-nav: " + m)
@@ -883,12 +1224,31 @@ def search(rep, variants, factor, rng):
         acc = {"terms": [], "cases": [], "fail": [], "dist": {}, "rt_mismatch": []}
         pairs = [(a, b) for a in v["names"] for b in v["names"]]
         explore(rep, v, ("sync", "async"), pairs, rng, True, factor, acc, policy_mix=False)
+        # histories of calls on one connection: for every ordered pair the first hop of the route ignored /
+        # refused for a whole call, then the same call and another one against the cooperating device; every
+        # authenticated hop with a wrong secret (device giving 1 and 3 attempts), then the corrected one
+        hists = []
+        for (a, b) in pairs:
+            route = ordered_route(v, a, b)
+            if not route:
+                continue
+            z = [x for x in v["names"] if x != b]
+            bad = {"kind": "ignore" if (len(hists) % 2) else "refuse", "edges": [list(route[0])]}
+            hists.append({"kind": "refused-then-cooperating", "start": a, "tries": 3,
+                          "calls": [{"dst": b, "fault": bad}, {"dst": b, "fault": {"kind": "none"}},
+                                    {"dst": z[len(hists) % len(z)], "fault": {"kind": "none"}}]})
+            if any(e in auth_level_edges(v) for e in route):
+                for tries in (1, 3):
+                    hists.append({"kind": "wrong-then-corrected-secret", "start": a, "tries": tries,
+                                  "calls": [{"dst": b, "fault": {"kind": "wrongpw"}}] + [{"dst": b, "fault": {"kind": "none"}}] * (tries + 1)})
+        acc["seq_terms"], acc["seq_cases"] = [], []
+        explore_calls(rep, v, ("sync", "async"), rng, factor, acc, None, hists=hists, policy_mix=False)
         for (sc, obs, why, sig) in acc["fail"]:
             if sig and rep.known_match(sig):
                 continue
             rep.violation("%s [%s %s %s->%s fault %s] (found by the search after a broken obligation)" % (
                 why, sc["variant"], sc["stack"], sc["src"], sc["dst"], json.dumps(sc["fault"])),
-                {"suite": "net-nav", "scenario": sc, "observed": obs_json(obs)}, signature=sig)
+                {"suite": "net-nav", "scenario": sc, "observed": obs_json(obs), "rerun": "./check C04 --replay <this file>"}, signature=sig)
             n += 1
             if n >= 4:
                 return
@@ -940,6 +1300,28 @@ def replay(path):
     fault = dict(sc["fault"])
     if "edges" in fault:
         fault["edges"] = [tuple(e) for e in fault["edges"]]
+    if "calls_history" in sc:
+        hist = sc["calls_history"]
+        obs = run_calls(v, sc["stack"], hist, tuple(sc.get("policy", ["whole"])))
+        print("scenario:", json.dumps(sc, default=repr)[:1500])
+        if obs.get("setup_exc"):
+            print("property FAILS on this input: could not navigate to the first level (%s)" % obs["setup_exc"])
+            return 1
+        rc = 0
+        for i, c in enumerate(obs["calls"]):
+            why, sig, how = call_oracle(v, hist, obs, i, _factor())
+            print("call %d: device in %s%s, driver remembers %s, %s, acquire_priv(%s) -> %s, device in %s, typed %r" % (
+                i + 1, c["pre_mode"], " (password dialogue pending)" if c["pre_dialog"] else "", c["belief0"],
+                json.dumps(hist["calls"][i]["fault"]), hist["calls"][i]["dst"], c["exc"] or "returned", c["mode"],
+                [l.decode("latin-1") for (_, l) in c["log"]]))
+            if why:
+                print("property FAILS on this input: call %d of the history, judged on its own: %s%s" % (
+                    i + 1, why, " [known finding %s]" % sig if sig else ""))
+                rc = 1
+                break
+        if not rc:
+            print("property holds on this input")
+        return rc
     if "history" in sc:
         obs = run_history(v, sc["stack"], sc["history"], sc["dst"], tuple(sc.get("policy", ["whole"])))
         print("scenario:", json.dumps(sc, default=repr)[:900])
@@ -993,7 +1375,20 @@ MANIFEST = {
             "executed lines, no clock) and on histories 'reach X, a user line from the vendor table (or Junos commit and-quit / EOS session "
             "commit) through send_command(s) / send_configs makes the device change level, acquire_priv(X | Y)' with the stale remembered "
             "level fed to the model + an oracle deciding the property on the device's own log from SimDevice's vendor "
-            "tables. partial: channel reads, regex classification of prompts and real timeouts are observed at run time, not proved.",
+            "tables. Histories of SEVERAL acquire_priv calls on one connection (round 6): calls_bounded - every call of every history, "
+            "whatever the devices of the individual calls do and whatever earlier calls ended in, ends within factor*|levels|+1 attempts "
+            "of its own; nav_history_reaches - after ANY history (failed calls included) a call during which the device cooperates, begun "
+            "at the prompt of a level matched by that level only, reaches its target by exactly the route from where the device is (the "
+            "model carries nothing but the remembered level and the device from call to call); core_platforms_history - by vm_compute "
+            "over every generated table: call 1 under every password situation (dialogue of 3 attempts, 1 for rejected secrets) or every "
+            "single refused transition, then call 2 to every target against the cooperating device: arrival by exactly the route whenever "
+            "call 1 failed leaving the device at an exactly-classified prompt. Tie: the real sync and asyncio drivers run such histories on "
+            "one driver object over one SimDevice (the device refuses / ignores a transition of the route for one or two whole calls, "
+            "each giving up at its bound, then cooperates; wrong / absent auth_secondary then corrected, the dialogue taking 1, 2 or 3 "
+            "passwords - so later calls begin inside a pending dialogue -; more fault-free calls than one call's bound has attempts; "
+            "random mixes), each call compared with the model's run_calls and judged ON ITS OWN by the oracle (the same exploration runs, "
+            "oracle only, when the translator rejects the source, and the failing-input search adds every pair x first hop refused and "
+            "every authenticated hop with a wrong secret). partial: channel reads, regex classification of prompts and real timeouts are observed at run time, not proved.",
     "note": "Section hypotheses of nav_reaches (not axioms): depth function consistent with previous_priv (acyclic), common root, levels < |levels|, "
             "graph sets = tree neighbours in any order, classification contains the mode and is exact on levels that have a child (C05's concern; "
             "fed from the real _determine_current_priv in the correspondence runs and from 'identical pattern text' in the by-computation "
@@ -1005,13 +1400,20 @@ MANIFEST = {
             "compare the exception class only). The model abstracts a prompt to the list of levels matching it: for varying "
             "prompts three prints per mode are classified by the real _determine_current_priv and must agree (else the run aborts). Histories: "
             "only the final acquire_priv is modelled (the model starts from the device's level and the remembered level observed before it; "
-            "send_command / send_configs themselves are C03's); the history oracle stays out of the region 'the device's prompt is shared by "
+            "send_command / send_configs themselves are C03's). Histories of calls: the behaviour of the device is constant DURING a call "
+            "and changes only between calls (per call: refused transitions, device secret, auth_secondary); histories with a rejected secret use unsplit reads (the "
+            "simulated device ends every vendor's dialogue with the IOS text '% Bad secrets', whose '%' alone is a Junos shell prompt to "
+            "get_prompt when a read ends there); a call begun inside a pending "
+            "password dialogue is judged leniently (bounded scrapli error, or arrival in the target), later ones strictly; "
+            "core_platforms_history judges call 2 only after a FAILED call 1 (a successful one is core_platforms_partial's case) and "
+            "crosses refused transitions with the two password situations 'right' / 'not asked' only. The history oracle stays out of the region 'the device's prompt is shared by "
             "several levels and the driver does not remember the right one' (C05 / the shared-prompt finding). When the translator rejects "
             "the source the exploration still runs, oracle only (tables from gen_privgraph.variants() or the drivers' level names, factor 2). "
             "Two known findings (known_findings.d/C04.json): auth_secondary typed as a command when no "
             "password is asked (mirrored by the model through the generated gen_stop flag; repaired on the C12 branch), and the shared-prompt "
             "refusal (acquire_priv returns normally in the wrong level).",
     "technique": "Coq proof (path-visited DFS soundness/completeness on any graph, subtree gate lemmas, hop lemma, route induction with loop "
-                 "invariant, pigeonhole bound) + vm_compute all-pairs/all-refusal lemmas over regenerated tables + vm_compute correspondence "
+                 "invariant, pigeonhole bound; histories of calls: fold of acquire, per-call bound, reachability after any history from "
+                 "the stale-belief theorem) + vm_compute all-pairs/all-refusal lemmas over regenerated tables + vm_compute correspondence "
                  "against both drivers",
 }
